@@ -14,7 +14,7 @@ ID = "C02"
 LEAN_TARGETS = ["OdxVerif.Props.C02"]
 DRIVERS = ["drv_codec"]
 P = "OdxVerif.Codec."
-THEOREMS = [P + t for t in ["C02_numrepr", "C02_atomic_layout", "C02_decode_reads", "C02_bit_exact_flat", "Obj.raw_eq_spec", "Obj.raw_spec", "Obj.canon_spec", "flat_described", "flat_undescribed", "read_place_roundtrip",
+THEOREMS = [P + t for t in ["C02_numrepr", "C02_atomic_layout", "C02_decode_reads", "C02_bit_exact_flat", "C02_bit_exact_struct", "Trees.enc_flat", "Obj.raw_eq_spec", "Obj.raw_spec", "Obj.canon_spec", "flat_described", "flat_undescribed", "read_place_roundtrip",
                             "getBit_place_inside", "getD_place_outside"]]
 GENERATORS = []
 RULE = ("(a) atomic: EncodeState.emplace_atomic_value / DecodeState.extract_atomic_value on pre-filled buffers, every base type x legal "
@@ -101,6 +101,25 @@ def atomic_family(ctx, drv):
                             f"accelerated and pure-Python bitstruct backends give different results for {c['op']} of {c['bt']}: {r1} vs {p[0]}")
 
 
+def python_reference(ctx, rep, comp, v, trig, r) -> bool:
+    """compare an accepted encoding with odxgen.refpdu (simple tier: standard-length objects with any modelled compu method,
+    structures, static fields, constants, RESERVED, request echo); False if the description is outside that tier"""
+    from odxgen import refpdu
+    try:
+        ref_pdu, _used, ref_ov = refpdu.reference_pdu(comp, v, trig)
+    except Exception:  # noqa  (Unsupported and anything the reference interpreter cannot handle)
+        return False
+    ctx.traces += 1
+    ctx.count("python-reference-compared")
+    ctx.histo("overlap", ref_ov)
+    if (r.warns > 0) != ref_ov:
+        rep.report("overlap-warning-iff-overlap", "warning-without-overlap" if r.warns else "overlap-without-warning", comp, v, trig,
+                   {"pdu": r.pdu.hex(), "spec_pdu": ref_pdu.hex(), "warnings": r.warns, "oracle": "odxgen.refpdu"})
+    elif not ref_ov and r.pdu != ref_pdu:
+        rep.report("bit-exact", "pdu-differs-from-spec", comp, v, trig, {"pdu": r.pdu.hex(), "spec_pdu": ref_pdu.hex(), "oracle": "odxgen.refpdu"})
+    return True
+
+
 def composite_family(ctx, drv):
     rep = O.Reporter(ctx)
     lines, meta = [], []
@@ -137,6 +156,10 @@ def composite_family(ctx, drv):
         replies = drv.query(lines)
         for (i, family, comp, v, trig, r), rep_line in zip(meta, replies):
             if not rep_line.startswith("(ok "):
+                # constructs outside the Lean Spec (non-identical compu methods, BIT-MASK): second, independent reference
+                # interpreter odxgen/refpdu.py (positional rules + exact compu conversion incl. COMPU-INVERSE-VALUE)
+                if r.ok and python_reference(ctx, rep, comp, v, trig, r):
+                    continue
                 ctx.count("spec-unsupported" if r.ok else "spec-and-impl-reject")
                 continue
             parts = rep_line[4:-1].split(" ")
